@@ -24,6 +24,8 @@ type rtProgram struct {
 	Deps     *DepOracle
 	Stats    map[string]int
 	Corpus   bool
+	Echo     bool     // ECHO* stages return their first input (program families)
+	Slow     []string // directed schedules (TASpec.SlowJobs), one extra run each
 }
 
 // compilePanics collects programs on which the real compiler / call-graph
